@@ -108,6 +108,12 @@ func (t *Transport) RoundTrip(req *http.Request) (*http.Response, error) {
 			resp = resizeEntities(resp, fault.Kind == "more-entities")
 		case "status-keep-body": // opt-in (C16): the semantic answer under another HTTP status
 			status = fault.Status
+		case "ok-truncated": // opt-in (C16): 200 with the semantic answer cut in the middle (unparsable JSON)
+			resp = append([]byte{}, resp[:len(resp)/2]...)
+		case "data-null": // opt-in (C16): 200 {"data":null} without errors
+			resp = []byte(`{"data":null}`)
+		case "data-empty": // opt-in (C16): 200 {"data":{}} (no _entities / no root fields), no errors
+			resp = []byte(`{"data":{}}`)
 		case "null-entity": // opt-in (C16): the first entity of an _entities answer is null (entity not found), no errors
 			resp = nullFirstEntity(resp)
 		case "data-and-errors": // opt-in (C16): the semantic answer (data kept) plus a non-empty errors array
